@@ -711,3 +711,213 @@ Section AsmCanon.
     - lia.
   Qed.
 End AsmCanon.
+
+(* ================================================================== branch targets *)
+(* The target the disassembler computes from a decoded offset (disassemble(): immLabel /
+   immLabels: end of the instruction + offset; immVarintLabel: start + offset when negative,
+   end + offset otherwise), relative to ops.pending. *)
+Local Open Scope nat_scope.
+Definition tgt2 (npos : nat) (off : Z) : Z := (Z.of_nat npos + off)%Z.
+Definition tgtv (pos npos : nat) (off : Z) : Z :=
+  if (off <? 0)%Z then (Z.of_nat pos + off)%Z else (Z.of_nat npos + off)%Z.
+
+Section Targets.
+  Variable labs : list nat.
+  Variable back_ver : N.
+  Notation resolve_all := (resolve_all back_ver).
+  Notation resolve_one := (resolve_one back_ver).
+  Notation resolve2 := (resolve2 back_ver).
+  Notation resolve2s := (resolve2s back_ver).
+
+  Lemma positions_ge : forall ps vss p0 d, In d (positions p0 ps vss) -> p0 <= d.
+  Proof.
+    induction ps as [|pi ps IH]; intros vss p0 d H; destruct vss as [|vs vss]; simpl in H;
+      try (destruct H as [H|[]]; lia).
+    destruct H as [H|H]; [lia|]. apply IH in H. lia.
+  Qed.
+
+  (* no instruction start lies strictly inside an instruction *)
+  Inductive gaps (poss : list nat) : nat -> list pinstr -> list nat -> Prop :=
+  | gaps_nil : forall pos, gaps poss pos [] []
+  | gaps_cons : forall pos pi vs ps vss,
+      (forall d, In d poss -> d <= pos \/ pos + psize pi vs <= d) ->
+      gaps poss (pos + psize pi vs) ps vss -> gaps poss pos (pi :: ps) (vs :: vss).
+
+  Lemma positions_gaps_gen : forall ps vss pre p0,
+    List.length ps = List.length vss -> (forall d, In d pre -> d <= p0) ->
+    gaps (pre ++ positions p0 ps vss) p0 ps vss.
+  Proof.
+    induction ps as [|pi ps IH]; intros vss pre p0 Hl Hpre; destruct vss as [|vs vss]; simpl in Hl;
+      try discriminate.
+    - constructor.
+    - cbn [positions]. constructor.
+      + intros d Hd. apply in_app_or in Hd. destruct Hd as [Hd|[Hd|Hd]].
+        * left. auto.
+        * left. lia.
+        * right. apply positions_ge in Hd. exact Hd.
+      + replace (pre ++ p0 :: positions (p0 + psize pi vs) ps vss)
+          with ((pre ++ [p0]) ++ positions (p0 + psize pi vs) ps vss)
+          by (rewrite <- app_assoc; reflexivity).
+        apply IH; [lia|]. intros d Hd. apply in_app_or in Hd. destruct Hd as [Hd|[Hd|[]]].
+        * specialize (Hpre d Hd). lia.
+        * lia.
+  Qed.
+
+  Lemma positions_gaps : forall ps vss,
+    List.length ps = List.length vss -> gaps (positions 0 ps vss) 0 ps vss.
+  Proof.
+    intros. apply (positions_gaps_gen ps vss [] 0); auto. intros d [].
+  Qed.
+
+  Lemma label_pos_in : forall poss k dest, label_pos labs poss k = Some dest -> In dest poss.
+  Proof.
+    unfold label_pos. intros poss k dest H. destruct (existsb (Nat.eqb k) labs); try discriminate.
+    eapply nth_error_In; eauto.
+  Qed.
+
+  (* what resolveLabels wrote for one instruction, and where the disassembler will land *)
+  Definition target_ok (poss : list nat) (pos : nat) (pi : pinstr) (vs : nat) (bytes : list N) : Prop :=
+    match pi with
+    | PFixed b => bytes = b
+    | PBranch2 op k =>
+        exists dest off, label_pos labs poss k = Some dest /\ bytes = op :: enc_imm (VLabel off) /\
+                         tgt2 (pos + psize pi vs) off = Z.of_nat dest
+    | PBranchV op k =>
+        exists dest off, label_pos labs poss k = Some dest /\ bytes = op :: enc_imm (VVLabel off) /\
+                         tgtv pos (pos + psize pi vs) off = Z.of_nat dest
+    | PSwitch op ks =>
+        exists offs, bytes = op :: enc_imm (VLabels offs) /\
+                     Forall2 (fun k off => exists dest, label_pos labs poss k = Some dest /\
+                                                        tgt2 (pos + psize pi vs) off = Z.of_nat dest) ks offs
+    end.
+
+  Lemma resolve2_target : forall v poss endpos offpos k l,
+    resolve2 v labs poss endpos offpos k = Some l ->
+    exists dest off, label_pos labs poss k = Some dest /\ l = enc_i16 off /\ tgt2 offpos off = Z.of_nat dest.
+  Proof.
+    intros v poss endpos offpos k l H. unfold AvmCodec.resolve2 in H.
+    destruct (label_pos labs poss k) as [dest|]; try discriminate.
+    destruct ((v <=? 1)%N && (dest =? endpos)); try discriminate.
+    destruct ((v <? back_ver)%N && (dest <? offpos)); try discriminate.
+    destruct (i16_ok (Z.of_nat dest - Z.of_nat offpos)); try discriminate.
+    inversion H; subst. exists dest, (Z.of_nat dest - Z.of_nat offpos)%Z. unfold tgt2.
+    repeat split; auto. lia.
+  Qed.
+
+  Lemma resolve2s_target : forall v poss endpos offpos ks l,
+    resolve2s v labs poss endpos offpos ks = Some l ->
+    exists offs, l = flat_map enc_i16 offs /\ List.length offs = List.length ks /\
+      Forall2 (fun k off => exists dest, label_pos labs poss k = Some dest /\
+                                         tgt2 offpos off = Z.of_nat dest) ks offs.
+  Proof.
+    induction ks as [|k ks IH]; intros l H; cbn [AvmCodec.resolve2s] in H.
+    - inversion H; subst. exists []. repeat split; constructor.
+    - destruct (resolve2 v labs poss endpos offpos k) as [a|] eqn:E1; try discriminate.
+      destruct (resolve2s v labs poss endpos offpos ks) as [b|] eqn:E2; try discriminate.
+      inversion H; subst. destruct (resolve2_target _ _ _ _ _ _ E1) as [dest [off [L1 [L2 L3]]]].
+      destruct (IH _ eq_refl) as [offs [O1 [O2 O3]]]. exists (off :: offs). subst.
+      cbn [flat_map List.length]. repeat split; auto. constructor; eauto.
+  Qed.
+
+  Lemma resolve_one_target : forall v poss endpos pos pi vs bytes,
+    (forall d, In d poss -> d <= pos \/ pos + psize pi vs <= d) ->
+    (forall op k dest, pi = PBranchV op k -> label_pos labs poss k = Some dest -> dest <> pos ->
+                       List.length (put_varint (vjump pos vs dest)) = vs) ->
+    resolve_one v labs poss endpos pos pi vs = Some bytes ->
+    target_ok poss pos pi vs bytes.
+  Proof.
+    intros v poss endpos pos pi vs bytes Hgap Hex H. destruct pi as [b|op k|op k|op ks];
+      cbn [AvmCodec.resolve_one target_ok psize] in *.
+    - inversion H; auto.
+    - destruct (resolve2 v labs poss endpos (pos + 3) k) as [l|] eqn:E; try discriminate.
+      inversion H; subst. destruct (resolve2_target _ _ _ _ _ _ E) as [dest [off [L1 [L2 L3]]]].
+      exists dest, off. subst. auto.
+    - destruct (label_pos labs poss k) as [dest|] eqn:El; try discriminate.
+      destruct ((v <=? 1)%N && (dest =? endpos)); try discriminate.
+      destruct ((v <? back_ver)%N && (dest <? pos + 1 + vs)); try discriminate.
+      destruct (dest =? pos) eqn:Ed; try discriminate. apply Nat.eqb_neq in Ed.
+      match type of H with (if ?c then _ else _) = _ => destruct c end; try discriminate.
+      inversion H; subst. pose proof (Hex op k dest eq_refl El Ed) as Hlen.
+      unfold pad0. rewrite Hlen, Nat.sub_diag. cbn [repeat]. rewrite app_nil_r.
+      exists dest, (vjump pos vs dest). repeat split; auto.
+      unfold tgtv, vjump. pose proof (Hgap dest (label_pos_in _ _ _ El)) as Hg.
+      destruct (dest <? pos) eqn:Elt.
+      + apply Nat.ltb_lt in Elt.
+        destruct (Z.of_nat dest - Z.of_nat pos <? 0)%Z eqn:Ez; [lia|apply Z.ltb_ge in Ez; lia].
+      + apply Nat.ltb_ge in Elt.
+        destruct (Z.of_nat dest - Z.of_nat (pos + 1 + vs) <? 0)%Z eqn:Ez;
+          [apply Z.ltb_lt in Ez; lia|lia].
+    - destruct (resolve2s v labs poss endpos (pos + 2 + 2 * List.length ks) ks) as [l|] eqn:E; try discriminate.
+      inversion H; subst. destruct (resolve2s_target _ _ _ _ _ _ E) as [offs [O1 [O2 O3]]].
+      exists offs. subst. split.
+      + cbn [enc_imm]. unfold nlen. rewrite O2. reflexivity.
+      + replace (pos + (2 + 2 * List.length ks)) with (pos + 2 + 2 * List.length ks) by lia. exact O3.
+  Qed.
+
+  Inductive targets_ok (poss : list nat) : nat -> list pinstr -> list nat -> list N -> Prop :=
+  | targets_nil : forall pos, targets_ok poss pos [] [] []
+  | targets_cons : forall pos pi vs ps vss a b,
+      target_ok poss pos pi vs a -> List.length a = psize pi vs ->
+      targets_ok poss (pos + psize pi vs) ps vss b ->
+      targets_ok poss pos (pi :: ps) (vs :: vss) (a ++ b).
+
+  Lemma resolve_one_length : forall v poss endpos pos pi vs bytes,
+    (forall op k dest, pi = PBranchV op k -> label_pos labs poss k = Some dest -> dest <> pos ->
+                       List.length (put_varint (vjump pos vs dest)) = vs) ->
+    resolve_one v labs poss endpos pos pi vs = Some bytes -> List.length bytes = psize pi vs.
+  Proof.
+    intros v poss endpos pos pi vs bytes Hex H. destruct pi as [b|op k|op k|op ks];
+      cbn [AvmCodec.resolve_one psize] in *.
+    - inversion H; auto.
+    - destruct (resolve2 v labs poss endpos (pos + 3) k) as [l|] eqn:E; try discriminate.
+      inversion H; subst. destruct (resolve2_target _ _ _ _ _ _ E) as [dest [off [L1 [L2 L3]]]]. subst.
+      reflexivity.
+    - destruct (label_pos labs poss k) as [dest|] eqn:El; try discriminate.
+      destruct ((v <=? 1)%N && (dest =? endpos)); try discriminate.
+      destruct ((v <? back_ver)%N && (dest <? pos + 1 + vs)); try discriminate.
+      destruct (dest =? pos) eqn:Ed; try discriminate. apply Nat.eqb_neq in Ed.
+      match type of H with (if ?c then _ else _) = _ => destruct c end; try discriminate.
+      inversion H; subst. pose proof (Hex op k dest eq_refl El Ed) as Hlen.
+      unfold pad0. rewrite Hlen, Nat.sub_diag. cbn [repeat]. rewrite app_nil_r. cbn [List.length].
+      rewrite Hlen. reflexivity.
+    - destruct (resolve2s v labs poss endpos (pos + 2 + 2 * List.length ks) ks) as [l|] eqn:E; try discriminate.
+      inversion H; subst. destruct (resolve2s_target _ _ _ _ _ _ E) as [offs [O1 [O2 O3]]]. subst.
+      cbn [List.length].
+      assert (Hl2 : forall l, List.length (flat_map enc_i16 l) = 2 * List.length l).
+      { induction l as [|j l IHl]; [reflexivity|]. cbn [flat_map]. rewrite app_length, IHl.
+        unfold enc_i16. cbn [List.length]. lia. }
+      rewrite Hl2. lia.
+  Qed.
+
+  Lemma resolve_all_targets : forall v poss endpos ps pos vss bytes,
+    gaps poss pos ps vss -> exact_sizes labs poss pos ps vss ->
+    resolve_all v labs poss endpos pos ps vss = Some bytes ->
+    targets_ok poss pos ps vss bytes.
+  Proof.
+    induction ps as [|pi ps IH]; intros pos vss bytes Hg Hex H.
+    - inversion Hg; subst. cbn [AvmCodec.resolve_all] in H. inversion H; subst. constructor.
+    - inversion Hg as [|? ? ? ? ? Hgap Hgrest]; subst. inversion Hex as [|? ? ? ? ? Hx Hxrest]; subst.
+      cbn [AvmCodec.resolve_all] in H.
+      destruct (resolve_one v labs poss endpos pos pi vs) as [a|] eqn:R1; try discriminate.
+      destruct (resolve_all v labs poss endpos (pos + psize pi vs) ps vss0) as [b|] eqn:R2; try discriminate.
+      inversion H; subst. constructor.
+      + eapply resolve_one_target; eauto.
+      + eapply resolve_one_length; eauto.
+      + eapply IH; eauto.
+  Qed.
+
+  (* Label resolution is correct at the layout found by findBranchSizes: the bytes written for
+     the i-th statement start at position pos_i of ops.pending (each chunk has exactly the size
+     the layout assumed), and the offset written for every label reference makes the
+     disassembler's target formula land exactly on the start of the labelled instruction. *)
+  Theorem branch_targets_correct : forall v ps fuel vss bytes,
+    find_sizes labs fuel ps (map (fun _ => 3) ps) = Some vss ->
+    resolve_all v labs (positions 0 ps vss) (last (positions 0 ps vss) 0) 0 ps vss = Some bytes ->
+    targets_ok (positions 0 ps vss) 0 ps vss bytes.
+  Proof.
+    intros v ps fuel vss bytes Hf Hr.
+    pose proof (branch_sizes_exact labs back_ver v ps fuel vss bytes Hf Hr) as Hex.
+    apply find_sizes_fix in Hf; [|rewrite map_length; reflexivity]. destruct Hf as [_ Hl].
+    eapply resolve_all_targets; eauto. apply positions_gaps. exact Hl.
+  Qed.
+End Targets.
